@@ -6,6 +6,8 @@ import Proofs.C13.Bits
 import Proofs.C13.Codec
 import Proofs.C13.Dispatch
 import Proofs.C13.TwoLevel
+import Proofs.C13.Entry
+import Proofs.C13.Lengths
 /-!
 # C13 — mnemonics and seeds: entropy round-trips, checksums bind, thresholds recover (DESIGN.md §3 C13)
 
@@ -119,6 +121,12 @@ theorem feistel_decrypt_encrypt (F : Nat → Bytes → Bytes) (hF : ∀ i r, (F 
     (m : Bytes) (hm : m.length % 2 = 0) :
     ∃ c, feistel F m false = some c ∧ c.length = m.length ∧ feistel F c true = some m :=
   Btc.C13.feistel_decrypt_encrypt F hF m hm
+
+/-- … and `encrypt (decrypt c) = c` -/
+theorem feistel_encrypt_decrypt (F : Nat → Bytes → Bytes) (hF : ∀ i r, (F i r).length = r.length)
+    (c : Bytes) (hc : c.length % 2 = 0) :
+    ∃ m, feistel F c true = some m ∧ m.length = c.length ∧ feistel F m false = some c :=
+  Btc.C13.feistel_encrypt_decrypt F hF c hc
 
 /-- decrypting under a WRONG round function (passphrase) never errors: it yields some payload of the same length -/
 theorem feistel_never_errors (F : Nat → Bytes → Bytes) (hF : ∀ i r, (F i r).length = r.length)
@@ -343,5 +351,66 @@ theorem slip39_one_level_end_to_end_partial (F : Nat → Bytes → Bytes) (hF : 
       intro b _
       simp [GF256.toByte, GF256.ofByte]
     rw [this]; exact hd
+
+/-! ## The two public entry points, on sentences (word-index level), with the executable hashes -/
+
+/-- `master_secret_from_mnemonics (select (mnemonics_from_master_secret ms …)) = ms`, as ONE statement about sentences
+    and for the definitions the driver runs (`hmacSha256`, `roundFunction` = PBKDF2-HMAC-SHA256 with
+    `_BASE_ITERATIONS << e` iterations, entry checks included): for every printable-ASCII passphrase, every even
+    secret length ≥ 16, every iteration exponent < 16, either flag, every admissible configuration (1..16 groups,
+    thresholds 1..n), every string the entropy source may hand out, the generator succeeds and EVERY selection of
+    sentences meeting the thresholds exactly, in any order, recovers the master secret.  No hash hypothesis remains. -/
+theorem slip39_sentences_end_to_end
+    (pw ms : Bytes) (groups : List (Nat × Nat)) (gt e : Nat) (ext : Bool) (idBytes : Bytes)
+    (groupRnd : List (List GF256)) (groupRp : List GF256)
+    (memberRnd : Nat → List (List GF256)) (memberRp : Nat → List GF256)
+    (hpw : validPassphrase pw = true) (hms : validLength ms.length = true) (he : e < 16)
+    (hadm : groupsAdmissible groups = true)
+    (h0 : 0 < gt) (h1 : gt ≤ groups.length) (h2 : groups.length ≤ 16)
+    (hgs : ∀ g ∈ groups, 0 < g.1 ∧ g.1 ≤ g.2 ∧ g.2 ≤ 16)
+    (hgr : 2 ≤ gt → groupRnd.length = gt - 2 ∧ (∀ r ∈ groupRnd, r.length = ms.length) ∧
+      groupRp.length + Gen.Slip39.DIGEST_BYTES = ms.length)
+    (hmr : ∀ g, g < groups.length → 2 ≤ (groups.getD g (0, 0)).1 →
+      (memberRnd g).length = (groups.getD g (0, 0)).1 - 2 ∧ (∀ r ∈ memberRnd g, r.length = ms.length) ∧
+      (memberRp g).length + Gen.Slip39.DIGEST_BYTES = ms.length) :
+    ∃ sentences,
+      mnemonicsFromMasterSecret hmacSha256 (roundFunction pw) pw ms groups gt e ext idBytes groupRnd groupRp
+        memberRnd memberRp = .ok sentences ∧
+      ∀ sel : List (Nat × Nat), sel ≠ [] → sel.Nodup →
+        (∀ p ∈ sel, p.1 < groups.length ∧ p.2 < (groups.getD p.1 (0, 0)).2) →
+        (sel.map (·.1)).eraseDups.length = gt →
+        (∀ g ∈ sel.map (·.1), (sel.filter (·.1 = g)).length = (groups.getD g (0, 0)).1) →
+        ∃ chosen, sel.mapM (fun p => (sentences.getD p.1 [])[p.2]?) = some chosen ∧
+          masterSecretFromMnemonics hmacSha256 (roundFunction pw) pw chosen = .ok ms :=
+  masterSecretFromMnemonics_mnemonicsFromMasterSecret_concrete pw ms groups gt e ext idBytes groupRnd groupRp
+    memberRnd memberRp hpw hms he hadm h0 h1 h2 hgs hgr hmr
+
+example : validPassphrase [84, 82, 69, 90, 79, 82] = true ∧ validLength (List.replicate 16 (7 : UInt8)).length = true ∧
+    groupsAdmissible [(1, 1), (2, 3), (1, 1)] = true := by decide
+
+/-- refusals, lifted to what `master_secret_from_mnemonics` runs: a decoded share set in which some group does not
+    hold EXACTLY its member threshold, or whose number of groups differs from the group threshold, is an error -/
+theorem slip39_master_secret_refuses (hm : Bytes → Bytes → Bytes) (F : ByteShare → Nat → Bytes → Bytes)
+    (sentences : List (List Nat)) (first : ByteShare) (rest : List ByteShare)
+    (hbs : sentences.mapM shareFromIndexes = .ok (first :: rest))
+    (h : (∃ g t, g ∈ ((first :: rest).map toGF).map (·.groupIndex) ∧
+            ((((first :: rest).map toGF).filter (·.groupIndex = g)).map (·.memberThreshold)).eraseDups = [t] ∧
+            (((first :: rest).map toGF).filter (·.groupIndex = g)).length ≠ t) ∨
+         ((((first :: rest).map toGF).map (·.groupIndex)).eraseDups.length ≠ (toGF first).groupThreshold)) :
+    ∃ e, masterSecret hm F sentences = .error e := by
+  apply masterSecret_error_of_recoverEms hm F sentences (first :: rest) hbs
+  rcases h with ⟨g, t, hg, ht, hn⟩ | hn
+  · exact recoverEms_wrong_member_count gf256Ops (digestGF hm) _ g t hg ht hn
+  · exact recoverEms_wrong_group_count gf256Ops (digestGF hm) (toGF first) (rest.map toGF) hn
+
+/-- the length hypotheses of T1/T4/T6 hold of the executable instances -/
+theorem executable_lengths (pw b k m r : Bytes) (e id i : Nat) (ext : Bool) :
+    (sha256 b).length = 32 ∧ (hmacSha256 k m).length = 32 ∧ (roundFunction pw e id ext i r).length = r.length :=
+  ⟨sha256_length b, hmacSha256_length k m, roundFunction_length pw e id ext i r⟩
+
+/-- `entropy._bits_per_digit` as TRANSLATED from the source is the model's `bitsPerDigit` -/
+theorem bits_per_digit_is_translated (n : Nat) (h : 1 ≤ n) :
+    Gen.Mnemonic.bits_per_digit (n : Int) = ((bitsPerDigit n : Nat) : Int) :=
+  bits_per_digit_translated n h
 
 end Props.C13
